@@ -178,7 +178,7 @@ FRAGMENTS_ANY = [
 
 #: plain python expressions (evaluated by python itself and by the Folder; n, m ints, xs a list of ints, w a bit list)
 PY_TEMPLATES = [
-    "n // m", "n % m", "-n // m", "-n % m", "n ** 2", "n << 2", "n >> 1", "n & m", "n | m", "n ^ m", "~n", "n.bit_length()", "int(n / m)", "int(-n / m)", "int(n / 2.5)", "float(n)", "abs(-n)", "bool(n - n)", "min(n, m)", "max(n, m, 3)",
+    "0 <= n <= 20", "0 < m < n < 30", "m <= n <= m", "1 < m <= 3 != n", "not 0 <= n - 5 <= 1", "n // m", "n % m", "-n // m", "-n % m", "n ** 2", "n << 2", "n >> 1", "n & m", "n | m", "n ^ m", "~n", "n.bit_length()", "int(n / m)", "int(-n / m)", "int(n / 2.5)", "float(n)", "abs(-n)", "bool(n - n)", "min(n, m)", "max(n, m, 3)",
     "divmod(n, m)", "round(n / m)", "round(n / m, 2)", "n / m", "2 ** (n % 5)", "10 ** (-(n % 3))", "bin(n)", "bin(n)[2:]", "bin(n)[2:].zfill(8)", "format(n, 'b')", "format(n, '08b')", "f'{n:05b}'", "f'{n}-{m}'", "str(n) + str(m)", "int('101', 2)", "int(bin(n)[2:], 2)",
     "[int(c) for c in format(n, '06b')]", "[(n >> i) & 1 for i in range(6)]", "[(n >> i) & 1 for i in reversed(range(6))]", "sum((n >> i) & 1 for i in range(8))", "list(range(m))", "list(range(1, m))", "list(range(m, 0, -1))", "list(range(0, n, m))", "len(range(n))",
     "xs[0]", "xs[-1]", "xs[1:3]", "xs[::-1]", "xs[::2]", "xs[1::2]", "xs + [n]", "xs * 2", "[0] * m", "len(xs)", "sum(xs)", "min(xs)", "max(xs)", "sorted(xs)", "sorted(xs, reverse=True)", "list(reversed(xs))", "list(enumerate(xs))", "list(zip(xs, xs[1:]))", "xs.index(max(xs))", "xs.count(xs[0])",
